@@ -29,7 +29,7 @@ def run(rep, tier):
 
     with ThreadPoolExecutor(nproc) as ex:
         results = list(ex.map(drive, range(nproc)))
-    total = nscale = naff = states = 0
+    total = nscale = naff = states = nfloat = 0
     for crashed, o, bad, acc, rejects, rs, st in results:
         if crashed:
             rep.violation("scaling driver crashed", payload={"output": o[-3000:]})
@@ -42,6 +42,7 @@ def run(rep, tier):
             rep.violation("scaling record disagrees with Scaling.tla: %s" % small, payload=ev)
         for x in rs:
             nscale += 1 if x["e"] == "Scale" else 0
+            nfloat = nfloat + (1 if x["e"] == "Float" else 0)
             naff += 1 if x["e"] == "Affine" and x["predRaw"] else 0
     if not rep.violations and (nscale < 2000 or naff < 300):
         raise CheckError("scaling coverage too small: %d scale records, %d affine records" % (nscale, naff))
@@ -51,9 +52,11 @@ def run(rep, tier):
                         "all-missing columns, arbitrary missing samples, categorical columns; TLC re-computes N, min, max, mean N, stdev, the scaled "
                         "value of every entry for the four modes (as rational identities), identity scaling of degenerate columns, missing -> 0, "
                         "categorical columns untouched; inversion, advertised range/mean/deviation and the affine up-scaling identity are checked "
-                        "exactly on the lattice. NOT covered: magnitudes 1e-6..1e6, near-constant columns and every 'up to floating-point rounding' "
-                        "clause on non-lattice data (rounding is outside what TLC can decide).",
-            evaluations=total, distinct_nontrivial=nscale, scale_records=nscale, affine_records=naff, states=states, transitions=states,
+                        "exactly on the lattice. Real-valued matrices (1..300 rows x 1..20 columns, magnitudes 1e-6..1e6, near-constant columns down to "
+                        "a spread of 1e-8 of the mean, arbitrary missing patterns, multi-output models): statistics recomputed in long double, inversion, "
+                        "advertised range / mean / deviation, categorical columns, missing -> 0 and the affine identity are decided by the driver with "
+                        "rounding tolerances and asserted by the trace specification (rounding is outside what TLC can decide).",
+            evaluations=total, distinct_nontrivial=nscale, scale_records=nscale, affine_records=naff, float_records=nfloat, states=states, transitions=states,
             traces_validated_against_impl=total)
     rep.assume("partial claim: only the exact-lattice reading of the property is decided")
 
